@@ -216,6 +216,36 @@ def c07d(F, R):
         R.bad("loops|missing", f"expected >= 2 token-consuming loops in the decoder, found {len(loops)}")
 
 
+@rule("C07", "C07.f.newline-tested-before-consume", floor=3)
+def c07f(F, R):
+    """in every lexer loop that is sensitive to the end of line, the newline test comes before a character is consumed (so the newline itself is left for the Newline token)"""
+    n = 0
+    for i in F.impls:
+        if i["self_ty"] != LEXER:
+            continue
+        for it in i["items"]:
+            f = F.fns.get(it["path"])
+            if not f or "hir" not in f:
+                continue
+            for lp in walk(f["hir"]["value"], pats=False):
+                if lp.get("k") != "Loop":
+                    continue
+                order = list(walk(lp["body"]))
+                first_nl = next((k for k, x in enumerate(order) if x.get("k") == "Lit" and x["lit"].get("v") == "\n" and x["lit"].get("t") == "char"), None)
+                first_cons = next((k for k, x in enumerate(order) if x.get("k") == "MethodCall" and x["name"] in ("consume_char", "skip_char")), None)
+                if first_nl is None or first_cons is None:
+                    continue
+                # nested loops are examined on their own
+                n += 1
+                key = f"{short(it['path'])}|loop{n}"
+                if first_nl < first_cons:
+                    R.ok(key, detail=f"{it['name']}: '\\n' is tested before consume_char in the loop body", where=loc(lp))
+                else:
+                    R.bad(f"{it['path']}|consume-before-newline-test", f"`{it['name']}` consumes a character before testing it for '\\n': the newline is swallowed and the following line is handed to error recovery / dropped", loc(lp))
+    if n < 3:
+        R.bad("coverage", f"only {n} end-of-line-sensitive loops found in the lexer (expected >= 3)")
+
+
 @rule("C07", "C07.e.unclassified-operands", floor=20)
 def c07e(F, R):
     """no successful decode path consumes a token whose kind it never established (such text would be dropped silently)"""
